@@ -315,7 +315,7 @@ func ruleP3(r *Run) {
 			}
 			return true
 		})
-		r.Check(buffered, key, fd.Pos(), "make(chan data, >=1)", "the per-call result channel is unbuffered: delivering a response to a caller that already gave up blocks the connection's receive loop for everybody")
+		r.Check(buffered, key, fd.Pos(), "make(chan data, >=1)", "the per-call result channel is not a channel made for this call with capacity >= 1 (no make(chan T, n) in conn.Transport): an unbuffered channel lets the delivery to a caller that already gave up block the connection's receive loop for everybody, and a recycled one can still receive the response of the call that used it before - the next caller takes that response for its own")
 	}
 }
 
